@@ -508,7 +508,9 @@ def _online_collect(v, runs, pid, sc=None):
 def _stg_conformance(sc, v, runs):
     """every recorded run must be a behaviour of the abstract system specification that MCStg checks exhaustively"""
     import online
-    clean = [r for r in runs if r["verdict"] is not None and r["tlc"].ok and not r["tlc"].rejects]
+    # (runs in which the AMF sends a message of its own accord in front of the fault are outside the AMF family of Stg.tla, whose AMF only
+    # answers: they are judged by StgOnline's final verdict alone)
+    clean = [r for r in runs if r["verdict"] is not None and r["tlc"].ok and not r["tlc"].rejects and not r["scn"]["fault"].get("ins")]
     n = 0
     for r, t in online.validate_stg(sc, clean):
         if not t.ok:
@@ -662,6 +664,17 @@ def check_C19(sc, v, tier, seed, replay):
                                                  opts={"det": si + seed % 3, "gnb_bits": 22 + (seed + 4 * 9) % 11, "free_msin": s[1] == 0, "imsi_len": 15, "low": 9999},
                                                  fault=fl)
                 jobs.append(("f%d-%s%02d%s" % (si, kind, at, "abcdefgh"[gi] if kind == "garbage" else ""), scn, text))
+        # a well-formed interface management message of the AMF's own accord (OVERLOAD STOP, AMF STATUS INDICATION) in front of the fault:
+        # the emulator takes it for the answer it waits for and meets the fault one read later (not where that read is the ignored one)
+        mgmt = [[0, 23, 0, 3, 0, 0, 0], [0, 1, 64, 15, 0, 0, 1, 0, 120, 0, 8, 0, 0, 2, 248, 57, 1, 0, 65]]
+        if si == 0 or tier != "quick":
+            for a in [a for a in range(reads - 1) if a + 1 not in ignored][(0 if si == 0 else si % 3)::(1 if si == 0 else 3)]:
+                for kind in (["garbage"] if a % 2 == 0 or tier == "quick" else ["garbage", "close"]):
+                    fl = {"kind": kind, "at": a, "bytes": classes[a % 2] if kind == "garbage" else [], "ins": mgmt[a % 2]}
+                    scn, text = online.make_scenario(random.Random(seed * 7 + si), counts,
+                                                     opts={"det": si + seed % 3, "gnb_bits": 22 + (seed + 4 * 9) % 11, "free_msin": s[1] == 0, "imsi_len": 15, "low": 9999},
+                                                     fault=fl)
+                    jobs.append(("f%d-ins-%s%02d" % (si, kind, a), scn, text))
         # two events in one run: the message whose content the emulator ignores (what follows a Registration Complete) is undecodable,
         # which it may shrug off, and a later consumed answer is undecodable too (whatever made it shrug must not outlive that message)
         pre = 4 if s[0] == 1 or s[1] == 0 else 8
